@@ -12,6 +12,6 @@ CONSTANTS
  MaxDefs = 2
  Vias = {"exec", "run"}
  Rush = TRUE
- Acts = {"define", "del", "rebind", "push", "pop", "clear", "reload", "close", "unload", "boot", "import", "fail", "fire", "set", "call", "out"}
+ Acts = {"define", "del", "rebind", "push", "pop", "clear", "reload", "close", "unload", "boot", "import", "fail", "tick", "fire", "set", "call", "out"}
 INVARIANT Report
 CHECK_DEADLOCK FALSE
